@@ -44,6 +44,7 @@ type Frame struct {
 	loopSeen  map[*ssa.BasicBlock]bool
 	loopEv    map[*ssa.BasicBlock]int // number of events when the loop header was first reached
 	loopSnap  map[*ssa.BasicBlock]*headSnap
+	fold      *foldCheck
 	pre       *preSnap // pre-state snapshot for contract checking (root frame or checked-inline)
 	depth     int
 }
